@@ -41,7 +41,11 @@ impl Bench {
     }
 
     fn obs(&mut self) -> Result<Obs, Fail> {
-        let pkg = self.pkg.as_mut().unwrap();
+        let pkg = match self.pkg.as_mut() {
+            Some(p) => p,
+            // the package was leaked after a panic in an earlier step (already reported)
+            None => return Err(Fail { clause: "no-package".into(), what: "package lost after an earlier panic".into() }),
+        };
         match guarded(|| observe(pkg)) {
             Ok(Ok((o, _))) => Ok(o),
             Ok(Err(e)) => Err(Fail { clause: "observe-failed".into(), what: e }),
@@ -53,7 +57,10 @@ impl Bench {
     /// `light` skips the full before/after observation for the (huge) accepted steps that merely fill up.
     fn step(&mut self, what: &str, light: bool, f: impl FnOnce(&mut Pkg) -> std::io::Result<()>) -> Result<Outcome, Fail> {
         let before = if light { None } else { Some(self.obs()?) };
-        let pkg = self.pkg.as_mut().unwrap();
+        let pkg = match self.pkg.as_mut() {
+            Some(p) => p,
+            None => return Err(Fail { clause: "no-package".into(), what: "package lost after an earlier panic".into() }),
+        };
         let r = guarded(|| f(pkg));
         let out = match r {
             Err(p) => {
@@ -133,6 +140,7 @@ fn expect(rep: &mut Report, limit: &str, mode: &str, what: &str, got: Result<Out
     rep.count(&format!("boundary_steps_{}", limit));
     let w = json!({"limit": limit, "mode": mode, "step": what});
     match got {
+        Err(f) if f.clause == "no-package" => false,
         Err(f) => {
             rep.violation(format!("C20/{}/{}/{}", limit, mode, f.clause), format!("[{} / {}] {}", limit, mode, f.what), w);
             false
@@ -239,14 +247,42 @@ fn pool_entries(b: &mut Bench) -> usize {
 }
 
 fn strs(from: usize, to: usize) -> Vec<Vec<msi::Value>> {
-    (from..to).map(|i| vec![msi::Value::Str(format!("s{:05}", i))]).collect()
+    (from..to).map(|i| vec![msi::Value::Str(format!("s{:05}", i)), msi::Value::Null]).collect()
+}
+
+/// Updates at a completely full pool: a shared string replaced by a new one needs a new entry (Err),
+/// by an existing one fits (Ok); replacing every reference frees the entry first (Ok).
+fn updates_at_full_pool(rep: &mut Report, b: &mut Bench, mode: &str) {
+    let upd = |key: &'static str, val: &'static str| {
+        move |p: &mut Pkg| p.update_rows(msi::Update::table("S").set("V", msi::Value::from(val)).with(msi::Expr::col("K").eq(msi::Expr::string(key))))
+    };
+    let r = b.step("update of a shared string to a new string at the pool limit", false, upd("zr1", "brand new 1"));
+    if !expect(rep, "pool-65535", mode, "update shared -> new string (needs a new entry)", r, Some(Outcome::Err)) {
+        return;
+    }
+    let r = b.step("update of a shared string to an existing string at the pool limit", false, upd("zr1", "s00007"));
+    if !expect(rep, "pool-65535", mode, "update shared -> existing string", r, Some(Outcome::Ok)) {
+        return;
+    }
+    let r = b.step("update of the last reference to a new string at the pool limit", false, upd("zr2", "brand new 2"));
+    expect(rep, "pool-65535", mode, "update last reference -> new string (slot is released first)", r, Some(Outcome::Ok));
 }
 
 /// 65,535 pool entries with two-byte references.
 fn pool_limit(rep: &mut Report, mode: &str) {
     const CAP: usize = 65_535;
     let mut b = Bench::new();
-    b.pkg.as_mut().unwrap().create_table("S", vec![msi::Column::build("K").primary_key().string(16)]).expect("create S");
+    b.pkg
+        .as_mut()
+        .unwrap()
+        .create_table("S", vec![msi::Column::build("K").primary_key().string(16), msi::Column::build("V").nullable().string(16)])
+        .expect("create S");
+    // two rows share one string in V (a release of one of them frees no pool entry)
+    b.pkg
+        .as_mut()
+        .unwrap()
+        .insert_rows(msi::Insert::into("S").row(vec![msi::Value::from("zr1"), msi::Value::from("shared")]).row(vec![msi::Value::from("zr2"), msi::Value::from("shared")]))
+        .expect("insert shared rows");
     let base = pool_entries(&mut b);
     let room = CAP - base; // distinct strings that still fit
     let ins = |from: usize, to: usize| move |p: &mut Pkg| p.insert_rows(msi::Insert::into("S").rows(strs(from, to)));
@@ -256,6 +292,9 @@ fn pool_limit(rep: &mut Report, mode: &str) {
             ok &= expect(rep, "pool-65535", mode, "fill to L-1", b.step("insert of distinct strings up to 65,534 pool entries", true, ins(0, room - 1)), Some(Outcome::Ok));
             ok &= ok && expect(rep, "pool-65535", mode, "to L", b.step("insert reaching 65,535 pool entries", false, ins(room - 1, room)), Some(Outcome::Ok));
             ok &= ok && expect(rep, "pool-65535", mode, "to L+1", b.step("insert needing a 65,536th pool entry", false, ins(room, room + 1)), Some(Outcome::Err));
+            if ok {
+                updates_at_full_pool(rep, &mut b, mode);
+            }
             // an already-pooled string still fits (no new entry needed): a second table referencing existing text
             if ok {
                 let r = b.step("create a second table (new catalog strings) at the pool limit", false, |p| {
@@ -284,6 +323,9 @@ fn pool_limit(rep: &mut Report, mode: &str) {
                 let _ = b.reopen();
             }
             ok &= ok && expect(rep, "pool-65535", mode, "to L+1 after reopen", b.step("insert needing a 65,536th pool entry after reopen", false, ins(at + 2, at + 3)), Some(Outcome::Err));
+            if ok {
+                updates_at_full_pool(rep, &mut b, mode);
+            }
             ok &= ok && expect(rep, "pool-65535", mode, "batch of 3 beyond", b.step("batch insert of 3 new strings at the limit", false, ins(at + 2, at + 5)), Some(Outcome::Err));
         }
         _ => {
